@@ -350,3 +350,55 @@ def render_overloads(progs, tag0=0):
         lines.append("}")
         ranges.append((first, len(lines), i))
     return "\n".join(lines) + "\n", ranges
+
+
+# ---------------------------------------------------------------------------------------------------------
+# Two-parameter overloads: every parameter list (T1, T2) over a type alphabet, every overload set of bounded size,
+# called with every pair of argument variables.  One namespace per set, one call per line.
+PTYPES = ["int", "long", "double", "short"]
+ATYPES = [("vi", "int"), ("vs", "short"), ("vl", "long"), ("vd", "double"), ("vc", "char")]
+
+
+def param_lists(types):
+    return [(a, b) for a in types for b in types]
+
+
+def overload2_sets(tier):
+    """quick: all sets of size <= 3 over the 16 lists of 4 types plus all sets of size 4 over the 9 lists of
+    {int, long, double}; thorough: all sets of size <= 4 over the 16 lists.  A set = sorted tuple of (T1, T2)."""
+    import itertools
+    l16 = param_lists(PTYPES)
+    l9 = param_lists(PTYPES[:3])
+    seen = set()
+    for n in (1, 2, 3):
+        for c in itertools.combinations(l16, n):
+            seen.add(c)
+            yield c
+    for c in itertools.combinations(l9 if tier == "quick" else l16, 4):
+        if c not in seen:
+            yield c
+
+
+def render_overloads2(sets, tag0=0):
+    """-> (source, ranges [(line, line, index)], items [(set, (argname1, argname2))]) - one item per call line"""
+    lines, ranges, items = [], [], []
+    params = ", ".join("%s %s" % (t, n) for n, t in ATYPES)
+    for k, st in enumerate(sets):
+        lines.append("namespace Q%d {" % (tag0 + k))
+        for t1, t2 in st:
+            lines.append("  void f(%s, %s) {}" % (t1, t2))
+        lines.append("  void call(%s) {" % params)
+        for a1, _ in ATYPES:
+            for a2, _ in ATYPES:
+                lines.append("    f(%s, %s);" % (a1, a2))
+                ranges.append((len(lines), len(lines), len(items)))
+                items.append(([list(x) for x in st], [a1, a2]))
+        lines.append("  }")
+        lines.append("}")
+    return "\n".join(lines) + "\n", ranges, items
+
+
+def show_overload2(item):
+    st, args = item
+    ty = dict(ATYPES)
+    return "{%s} <- f(%s %s, %s %s)" % ("; ".join("f(%s,%s)" % tuple(x) for x in st), ty[args[0]], args[0], ty[args[1]], args[1])
